@@ -48,6 +48,31 @@ var states = []string{"nocreds", "token", "session", "expired", "deactivated", "
 // authentication, and with the user logged in twice before the invalidation
 var extraStates = []string{"deactivated-session", "permchanged-session", "deactivated-2logins", "permchanged-2logins"}
 
+// regrantStates: every transition old permission -> new permission made by GRANT after login (GRANT replaces
+// the permission held on that database, so it is also how a permission is lowered). Downgrades are run with a
+// token, a session, two logins, and through SQL ALTER USER; upgrades with a token and a session.
+func regrantStates(role int) []string {
+	old := role // levels are numbered like the roles R, RW, Admin
+	if role == roleNone {
+		old = pRW // on its home database db3
+	}
+	var out []string
+	for lvl, name := range map[int]string{pR: "R", pRW: "RW", pAdmin: "Admin"} {
+		switch {
+		case lvl < old:
+			for _, v := range []string{"", "-session", "-2logins", "-alteruser"} {
+				out = append(out, "regrant-"+name+v)
+			}
+		case lvl > old:
+			for _, v := range []string{"", "-session"} {
+				out = append(out, "regrant-"+name+v)
+			}
+		}
+	}
+	sort.Strings(out)
+	return out
+}
+
 func Run(c *fw.Ctx) {
 	c.Rule = "every RPC served (list from the gRPC server at run time) x role {none,R,RW,Admin,SysAdmin on db1} x database selection " +
 		"{own db1, other db2, systemdb, none} x session state {no credentials, token, session, session removed, user deactivated, permission revoked after login}; " +
@@ -86,6 +111,9 @@ func Run(c *fw.Ctx) {
 				}
 				if role != roleSys {
 					for _, st := range extraStates {
+						add(caseSpec{Role: role, Sel: "own", State: st, Content: cseed, Only: only})
+					}
+					for _, st := range regrantStates(role) {
 						add(caseSpec{Role: role, Sel: "own", State: st, Content: cseed, Only: only})
 					}
 				}
@@ -139,9 +167,10 @@ type caseRun struct {
 type held struct {
 	key     string
 	x       *cx // carries role / user / state / cred / logins of the establishment
-	steps   []string
-	revoked bool
-	dirty   bool
+	steps    []string
+	revoked  bool
+	newLevel int // >= 0: permission on the home database re-GRANTed after login
+	dirty    bool
 }
 
 func (r *caseRun) hold(x *cx) *held {
@@ -152,8 +181,8 @@ func (r *caseRun) hold(x *cx) *held {
 	}
 	if r.cur == nil {
 		hx := &cx{e: r.e, role: x.role, user: x.user, sel: x.sel, state: x.state}
-		steps, revoked := r.establish(hx)
-		r.cur = &held{key: key, x: hx, steps: steps, revoked: revoked}
+		steps, revoked, newLevel := r.establish(hx)
+		r.cur = &held{key: key, x: hx, steps: steps, revoked: revoked, newLevel: newLevel}
 	}
 	x.cred = r.cur.x.cred
 	return r.cur
@@ -307,6 +336,36 @@ func runCase(c *fw.Ctx, data []byte) {
 			ms = append(ms, m)
 		}
 		sort.Strings(ms)
+		if strings.HasPrefix(st, "regrant-") {
+			// served beyond the permission GRANTed after login (judged by the new permission)
+			old := roleNames[cs.Role]
+			if cs.Role == roleNone {
+				old = "homeRW"
+			}
+			trans := old + "-to-" + strings.TrimPrefix(st, "regrant-")
+			oldLvl := cs.Role
+			if cs.Role == roleNone {
+				oldLvl = pRW
+			}
+			label := "upgrade-by-grant"
+			if nl, _ := regrantLevel(st); nl < oldLvl {
+				label = "downgrade-by-grant"
+			}
+			if strings.HasSuffix(st, "-alteruser") {
+				label = strings.Replace(label, "by-grant", "by-alter-user", 1)
+			}
+			parts := []string{}
+			for _, m := range ms {
+				parts = append(parts, m+"("+strings.Join(dedup(byMethod[m]), ",")+")")
+			}
+			sig := "stale-permission-served/" + label + "/*"
+			if len(ms) <= 6 {
+				sig = "stale-permission-served/" + label + "/" + strings.Join(ms, "+")
+			}
+			r.violate(sig, fmt.Sprintf("user %s logged in, then the sysadmin GRANTed it the lower permission (%s): through the login made before the change %d methods still acted beyond the new permission: %s",
+				roleUser[cs.Role], trans, len(ms), strings.Join(parts, " ")), data)
+			continue
+		}
 		if len(ms) > 6 {
 			parts := []string{}
 			for _, m := range ms {
@@ -386,7 +445,38 @@ func selDB(sel string) string {
 	return ""
 }
 
-func refusedState(st string) bool { return st != "token" && st != "session" }
+func refusedState(st string) bool {
+	return st != "token" && st != "session" && !strings.HasPrefix(st, "regrant-")
+}
+
+// regrantLevel parses a state "regrant-<R|RW|Admin>[-session|-2logins|-alteruser]": after login the sysadmin
+// GRANTs that permission on the user's home database, which REPLACES the one held at login (this is how a
+// permission is lowered). Calls through the old login are judged by the NEW permission.
+func regrantLevel(st string) (int, bool) {
+	if !strings.HasPrefix(st, "regrant-") {
+		return 0, false
+	}
+	f := strings.Split(strings.TrimPrefix(st, "regrant-"), "-")
+	switch f[0] {
+	case "R":
+		return pR, true
+	case "RW":
+		return pRW, true
+	case "Admin":
+		return pAdmin, true
+	}
+	return 0, false
+}
+
+func permissionCode(level int) uint32 {
+	switch level {
+	case pR:
+		return 1
+	case pRW:
+		return 2
+	}
+	return 254
+}
 
 // permission of the cell's user on db, from the harness's own bookkeeping
 func permOf(role int, revoked bool, db string) int {
@@ -416,7 +506,8 @@ func origPermission(role int) uint32 {
 }
 
 // establish logs the cell's user in, selects the database and then invalidates the credential as the state says.
-func (r *caseRun) establish(x *cx) (steps []string, revoked bool) {
+func (r *caseRun) establish(x *cx) (steps []string, revoked bool, newLevel int) {
+	newLevel = -1
 	e := r.e
 	note := func(s string, err error) {
 		if err != nil {
@@ -487,6 +578,20 @@ func (r *caseRun) establish(x *cx) (steps []string, revoked bool) {
 		_, err := e.ic.ChangePermission(sys, &schema.ChangePermissionRequest{Action: schema.PermissionAction_REVOKE, Username: x.user, Database: home, Permission: origPermission(x.role)})
 		note("sysadmin ChangePermission(REVOKE "+home+")", err)
 		revoked = err == nil
+	case strings.HasPrefix(st, "regrant-"):
+		lvl, _ := regrantLevel(st)
+		var err error
+		if strings.HasSuffix(st, "-alteruser") {
+			word := map[int]string{pR: "READ", pRW: "READWRITE", pAdmin: "ADMIN"}[lvl]
+			_, err = e.ic.SQLExec(e.saCtx(home), &schema.SQLExecRequest{Sql: fmt.Sprintf("ALTER USER %s WITH PASSWORD '%s' %s;", x.user, pw, word)})
+			note("sysadmin SQL ALTER USER ... "+word+" on "+home, err)
+		} else {
+			_, err = e.ic.ChangePermission(sys, &schema.ChangePermissionRequest{Action: schema.PermissionAction_GRANT, Username: x.user, Database: home, Permission: permissionCode(lvl)})
+			note(fmt.Sprintf("sysadmin ChangePermission(GRANT %d on %s)", permissionCode(lvl), home), err)
+		}
+		if err == nil {
+			newLevel = lvl
+		}
 	}
 	return
 }
@@ -509,7 +614,7 @@ func (r *caseRun) release(x *cx) {
 	switch {
 	case strings.HasPrefix(x.state, "deactivated"):
 		e.ic.SetActiveUser(sys, &schema.SetActiveUserRequest{Username: x.user, Active: true})
-	case strings.HasPrefix(x.state, "permchanged"):
+	case strings.HasPrefix(x.state, "permchanged"), strings.HasPrefix(x.state, "regrant-"):
 		e.ic.ChangePermission(sys, &schema.ChangePermissionRequest{Action: schema.PermissionAction_GRANT, Username: x.user, Database: homeOf(x.role), Permission: origPermission(x.role)})
 	}
 }
@@ -617,11 +722,29 @@ func (r *caseRun) cell(mi methodInfo, sp *spec, role int, sel, state string, per
 	if !refusedState(state) && !x.cred.ok {
 		stName = "login-refused"
 	}
+	// a permission re-GRANTed after login: the calls made through the old login are judged by the NEW permission
+	newLevel := h.newLevel
+	regranted := newLevel >= 0 && !refused
+	jrole := role
+	if regranted && role >= roleR && role <= roleAdmin {
+		jrole = newLevel // levels R, RW, Admin are numbered like the roles
+	}
 	perm := func(db string) int {
+		if regranted && db == homeOf(role) {
+			return newLevel
+		}
 		if p, ok := x.extraPerm[db]; ok && !revoked {
 			return p
 		}
 		return permOf(role, revoked, db)
+	}
+	// in a re-granted state one defect of the login layer shows on many methods: aggregated per case like the refused states
+	viol := func(sig, detail, short string) {
+		if regranted {
+			r.noteRefused(state, name, short)
+			return
+		}
+		r.violate(sig, detail, caseData)
 	}
 
 	// ---- rule 1: observed state changes
@@ -640,21 +763,21 @@ func (r *caseRun) cell(mi methodInfo, sp *spec, role int, sel, state string, per
 		switch ch.Kind {
 		case "data":
 			if ch.DB == sysDBn {
-				okc = role >= roleAdmin // user table / database catalogue
+				okc = jrole >= roleAdmin // user table / database catalogue
 			} else {
 				okc = perm(ch.DB) >= pRW
 			}
 		case "settings", "loaded":
 			okc = perm(ch.DB) >= pAdmin
 		case "dblist":
-			okc = role >= roleAdmin
+			okc = jrole >= roleAdmin
 		case "userperm", "userlist":
-			okc = role == roleSys || (ch.DB != "" && perm(ch.DB) >= pAdmin) || (ch.DB == "" && role >= roleAdmin)
+			okc = jrole == roleSys || (ch.DB != "" && perm(ch.DB) >= pAdmin) || (ch.DB == "" && jrole >= roleAdmin)
 		case "useractive", "userprivs":
-			okc = role >= roleAdmin
+			okc = jrole >= roleAdmin
 		}
 		if !okc {
-			r.violate(fmt.Sprintf("unauthorized-change/%s/%s-%s", name, roleNames[role], ch.Kind), desc, caseData)
+			viol(fmt.Sprintf("unauthorized-change/%s/%s-%s", name, roleNames[role], ch.Kind), desc, "changed "+ch.Kind+" of "+ch.DB)
 		}
 	}
 
@@ -671,14 +794,14 @@ func (r *caseRun) cell(mi methodInfo, sp *spec, role int, sel, state string, per
 
 	// ---- rule 3: by class, valid sessions
 	if !refused && err == nil {
-		if class == clAdmin && role < roleAdmin {
-			r.violate(fmt.Sprintf("unauthorized-admin/%s/%s", name, roleNames[role]), where, caseData)
+		if class == clAdmin && jrole < roleAdmin {
+			viol(fmt.Sprintf("unauthorized-admin/%s/%s", name, roleNames[role]), where, "admin operation served")
 		}
 	}
 	if err == nil && sp != nil && sp.explicit && (class == clOpen || !refused) {
 		// the request names a database: succeeding needs the level on THAT database (current permissions)
 		if perm(x.target) < sp.level {
-			r.violate(fmt.Sprintf("unauthorized-%s/%s/%s-on-%s", class, name, roleNames[role], sel), where+" on "+x.target, caseData)
+			viol(fmt.Sprintf("unauthorized-%s/%s/%s-on-%s", class, name, roleNames[role], sel), where+" on "+x.target, "served on "+x.target)
 		}
 	}
 	if err == nil && class != clPublic && class != clFiltered {
@@ -702,7 +825,7 @@ func (r *caseRun) cell(mi methodInfo, sp *spec, role int, sel, state string, per
 			if leak != "" && refused {
 				r.noteRefused(stName, name, "returned "+leak)
 			} else if leak != "" {
-				r.violate(fmt.Sprintf("unauthorized-read/%s/%s-%s", name, roleNames[role], sel), where+": response carries "+leak, caseData)
+				viol(fmt.Sprintf("unauthorized-read/%s/%s-%s", name, roleNames[role], sel), where+": response carries "+leak, "returned "+leak)
 			}
 		}
 	}
